@@ -529,3 +529,16 @@ def build_driver_386():
         raise Inconclusive("driver does not build for GOARCH=386:\n" + o[-4000:])
     _built["386"] = out
     return out
+
+
+def build_preload():
+    """LD_PRELOAD interposer of the crash harness (harness/preload/killwrite.c): kills the child right before its n-th write system call on the database file"""
+    if "preload" in _built:
+        return _built["preload"]
+    os.makedirs(os.path.join(HARNESS, "bin"), exist_ok=True)
+    out = os.path.join(HARNESS, "bin", "killwrite.so")
+    rc, o, dt = sh(["clang", "-shared", "-fPIC", "-O1", "-o", out, os.path.join(HARNESS, "preload", "killwrite.c"), "-ldl"], timeout=300)
+    if rc != 0:
+        raise Inconclusive("the write interposer does not build:\n" + o[-2000:])
+    _built["preload"] = out
+    return out
